@@ -8,7 +8,17 @@
 //!                    `merge` and through `GossipMembershipManager::handle_gossip(Sync)`.
 //!  monotone        : random programs of merges and local events; after every call the Lamport time
 //!                    and every recorded incarnation must not have decreased, and nobody is recorded
-//!                    Failed at an incarnation above what that member announced.
+//!                    Failed at an incarnation above what that member announced. In half of the
+//!                    manager programs the receiving node is itself one of the observed members
+//!                    (a node that restarted and hears its own earlier incarnations back from its
+//!                    peers, is suspected and refutes, is announced alive, is pinged, ...): its
+//!                    record of itself is a recorded incarnation like any other.
+//!  concurrent      : the same manager handles gossip on 2-3 threads at once (handle_gossip takes
+//!                    &self; one thread mostly delivers large Sync batches, the others Alive
+//!                    announcements with growing incarnations, Syncs with a growing sender clock,
+//!                    suspicions and ping acks). The oracle is only this: the Lamport time and the
+//!                    recorded incarnation of a member that one thread reads (each read under the
+//!                    manager's own lock) never decrease from one read of that thread to its next.
 
 use common::*;
 use serde_json::{json, Value};
@@ -17,6 +27,7 @@ use std::sync::Arc;
 use std::time::Instant;
 use tensor_chain::gossip::{GossipConfig, GossipMembershipManager, GossipMessage, GossipNodeState, LWWMembershipState};
 use tensor_chain::membership::NodeHealth;
+use tensor_chain::network::Message;
 
 #[derive(Clone, Copy, Debug, PartialEq, Eq, PartialOrd, Ord, Hash)]
 struct Upd {
@@ -288,20 +299,40 @@ fn conv_random(case_seed: u64, r: &mut Report) {
 
 /// monotonicity of Lamport time and incarnations, failed-incarnation bound
 fn monotone(case_seed: u64, r: &mut Report) {
+    // the manager's handlers may spawn tasks (a node that is suspected broadcasts its refutation):
+    // the whole program runs inside the thread's runtime context
+    RT.with(|rt| {
+        let _ctx = rt.enter();
+        monotone_program(case_seed, r)
+    })
+}
+
+fn monotone_program(case_seed: u64, r: &mut Report) {
     let mut rng = Rng::new(case_seed);
     let members = 2 + rng.below(3) as u8;
     let use_mgr = rng.chance(1, 3);
+    // in half of the manager programs the receiving node is one of the observed members (drawn from
+    // a stream of its own, so that the programs themselves are the ones generated before)
+    let local_member: Option<u8> = {
+        let mut r2 = Rng::new(case_seed ^ 0x5E1F_0B5E_57ED);
+        if use_mgr && r2.bool() { Some(r2.below(members as usize) as u8) } else { None }
+    };
+    let local_name = local_member.map(mname).unwrap_or_else(|| "local".to_string());
+    let mut self_refutations = 0u64; // = the node's own incarnation counter (it starts at 0)
     let mut ann: Vec<u64> = vec![0; members as usize]; // highest incarnation each member announced
     let mut trace: Vec<String> = Vec::new();
     let mut st = LWWMembershipState::new();
-    let t = h_chain::CaptureTransport::new("local", &["obs".to_string()]);
+    let t = h_chain::CaptureTransport::new(&local_name, &["obs".to_string()]);
     // half of the manager cases let suspicions expire at once (1 ms), so that the failure verdict of
     // expire_suspicions (run at the end of every gossip round) is part of the program
     let fast_expiry = rng.bool();
     let gcfg = if fast_expiry { GossipConfig { suspicion_timeout_ms: 1, ..GossipConfig::default() } } else { GossipConfig::default() };
-    let mgr = GossipMembershipManager::new("local".into(), gcfg, t);
+    let mgr = GossipMembershipManager::new(local_name.clone(), gcfg, t.clone());
     if use_mgr {
         mgr.add_peer("obs".into());
+    }
+    if local_member.is_some() {
+        r.count("monotone_programs_in_which_the_receiving_node_is_an_observed_member", 1);
     }
     let mut prev_time = 0u64;
     let mut prev_inc: BTreeMap<String, u64> = BTreeMap::new();
@@ -363,7 +394,35 @@ fn monotone(case_seed: u64, r: &mut Report) {
                 let inc = rng.below(ann[m as usize] as usize + 3) as u64;
                 desc = format!("suspect {} inc {}", mname(m), inc);
                 if use_mgr {
+                    let about_self = local_member == Some(m);
+                    if about_self {
+                        // the receiving node itself is suspected: it refutes with its own counter + 1,
+                        // which after a restart is below what its peers gossiped back about it
+                        r.count("monotone_suspicions_of_the_receiving_node", 1);
+                        let recorded = mgr.node_state(&local_name).map_or(0, |s| s.incarnation);
+                        if recorded > self_refutations + 1 {
+                            r.count("monotone_suspicions_of_the_receiving_node_whose_view_of_itself_is_ahead_of_its_counter", 1);
+                        }
+                    }
                     mgr.handle_gossip(GossipMessage::Suspect { reporter: "obs".into(), suspect: mname(m), incarnation: inc });
+                    if about_self {
+                        self_refutations += 1;
+                        // the refutation is an announcement by the member itself: take the
+                        // incarnation it really broadcast
+                        block_on(async {
+                            for _ in 0..3 {
+                                tokio::task::yield_now().await;
+                            }
+                        });
+                        for (_to, msg) in t.drain() {
+                            if let Message::Gossip(GossipMessage::Alive { node_id, incarnation }) = msg {
+                                if node_id == local_name {
+                                    ann[m as usize] = ann[m as usize].max(incarnation);
+                                    r.count("monotone_refutation_messages_broadcast_by_the_receiving_node", 1);
+                                }
+                            }
+                        }
+                    }
                 } else {
                     st.suspect(&mname(m), inc);
                 }
@@ -471,14 +530,14 @@ fn monotone(case_seed: u64, r: &mut Report) {
             }
         }
         if let Some((sig, d)) = bad {
-            r.violation(sig, format!("{} after step {} of {:?} (mgr={})", d, step, trace, use_mgr), json!({"part": "monotone", "case_seed": case_seed}));
+            r.violation(sig, format!("{} after step {} of {:?} (mgr={}, receiving node={})", d, step, trace, use_mgr, local_name), json!({"part": "monotone", "case_seed": case_seed}));
             return;
         }
     }
     r.count("monotone_events", events);
     r.eval(hash_str(&trace.join(";")), true);
     if r.want_sample() {
-        r.sample(json!({"part": "monotone", "manager": use_mgr, "trace": trace.iter().take(12).collect::<Vec<_>>()}));
+        r.sample(json!({"part": "monotone", "manager": use_mgr, "receiving_node": local_name, "trace": trace.iter().take(12).collect::<Vec<_>>()}));
     }
 }
 
@@ -575,6 +634,204 @@ fn hlc_case(case_seed: u64, r: &mut Report) {
     }
 }
 
+/// What one thread has read so far from a manager that several threads deliver gossip to. The only
+/// thing judged: a value this thread reads (Lamport time, recorded incarnation of a member; every
+/// read is one call of an accessor, i.e. taken under the manager's own lock) is never below the
+/// value the same thread read before.
+struct Reader {
+    who: String,
+    time: u64,
+    incs: Vec<Option<u64>>,
+    reads: u64,
+    advances: u64,
+}
+
+impl Reader {
+    fn new(who: String, members: usize) -> Reader {
+        Reader { who, time: 0, incs: vec![None; members], reads: 0, advances: 0 }
+    }
+    fn read(&mut self, mgr: &GossipMembershipManager, xs: &[String]) -> Option<(String, String)> {
+        let mut bad = None;
+        let t = mgr.lamport_time();
+        self.reads += 1;
+        if t < self.time {
+            bad = Some((
+                "concurrent:lamport-time-decreased-between-reads".to_string(),
+                format!("{} read Lamport time {} and, at its next read, {}", self.who, self.time, t),
+            ));
+        }
+        if t > self.time {
+            self.advances += 1;
+        }
+        self.time = t;
+        for (j, x) in xs.iter().enumerate() {
+            let inc = mgr.node_state(x).map(|s| s.incarnation);
+            if let (Some(before), Some(now)) = (self.incs[j], inc) {
+                if now < before {
+                    bad = Some((
+                        "concurrent:incarnation-decreased-between-reads".to_string(),
+                        format!("{} read {} at incarnation {} and, at its next read, at incarnation {}", self.who, x, before, now),
+                    ));
+                }
+            }
+            if inc.is_some() {
+                self.incs[j] = inc;
+            }
+        }
+        bad
+    }
+}
+
+/// Gossip handled on several threads of one manager (see the header). `steps` bounds the pacing
+/// thread (mostly large Sync batches); the other deliverers work until it is done (hard cap on
+/// their number of calls), a pure observer reads all the time. No clock is involved anywhere.
+fn concurrent_case(case_seed: u64, r: &mut Report, steps: usize) -> bool {
+    use std::sync::atomic::{AtomicBool, AtomicU64, Ordering};
+    let mut rng = Rng::new(case_seed);
+    let n_del = 2 + rng.below(2);
+    let n_x = 1 + rng.below(3);
+    let batch_max = 64 + rng.below(400);
+    let t = h_chain::CaptureTransport::new("local", &["obs".to_string()]);
+    let mgr = GossipMembershipManager::new("local".into(), GossipConfig::default(), t);
+    let xs: Vec<String> = (0..n_x).map(|i| format!("x{}", i)).collect();
+    mgr.handle_gossip(GossipMessage::Sync {
+        sender: "obs".into(),
+        states: xs.iter().map(|x| GossipNodeState::with_wall_time(x.clone(), NodeHealth::Healthy, 1, 0, 0)).collect(),
+        sender_time: 1,
+    });
+    let next_inc: Vec<AtomicU64> = (0..n_x).map(|_| AtomicU64::new(0)).collect();
+    let next_time = AtomicU64::new(100);
+    let pacer_inside = AtomicBool::new(false);
+    let pacer_done = AtomicBool::new(false);
+    let stop = AtomicBool::new(false);
+    let bad: std::sync::Mutex<Option<(String, String)>> = std::sync::Mutex::new(None);
+    let calls = AtomicU64::new(0);
+    let overlapping = AtomicU64::new(0);
+    let reads = AtomicU64::new(0);
+    let observer_advances = AtomicU64::new(0);
+    let report_bad = |b: Option<(String, String)>| {
+        if let Some(b) = b {
+            let mut g = bad.lock().unwrap_or_else(|e| e.into_inner());
+            if g.is_none() {
+                *g = Some(b);
+            }
+            stop.store(true, Ordering::SeqCst);
+        }
+    };
+    std::thread::scope(|sc| {
+        for d in 0..n_del {
+            let (mgr, xs, next_inc, next_time) = (&mgr, &xs, &next_inc, &next_time);
+            let (pacer_inside, pacer_done, stop, calls, overlapping, reads) = (&pacer_inside, &pacer_done, &stop, &calls, &overlapping, &reads);
+            let report_bad = &report_bad;
+            sc.spawn(move || RT.with(|rt| {
+                // handlers may spawn tasks (broadcasts): give the thread a runtime context
+                let _ctx = rt.enter();
+                let mut rng = Rng::new(case_seed ^ (d as u64 + 1).wrapping_mul(0x9E37_79B9_7F4A_7C15));
+                let mut me = Reader::new(format!("delivering thread {}", d), xs.len());
+                let pacer = d == 0;
+                let weights: [u32; 6] = if pacer { [60, 10, 10, 10, 5, 5] } else { [4, 36, 25, 20, 8, 7] };
+                let cap = if pacer { steps } else { steps * 400 };
+                let mut my_calls = 0u64;
+                let mut my_overlaps = 0u64;
+                for step in 0..cap {
+                    if stop.load(Ordering::Relaxed) || (!pacer && pacer_done.load(Ordering::Acquire)) {
+                        break;
+                    }
+                    let j = rng.below(xs.len());
+                    let msg = match rng.weighted(&weights) {
+                        0 => {
+                            // a large batch about many other members: a long stay inside handle_sync
+                            let k = 16 + rng.below(batch_max);
+                            let states: Vec<GossipNodeState> = (0..k)
+                                .map(|i| GossipNodeState::with_wall_time(format!("b{}", i), health_of(rng.below(3) as u8), 1 + rng.below(60) as u64, rng.below(3) as u64, 0))
+                                .collect();
+                            GossipMessage::Sync { sender: format!("p{}", d), states, sender_time: rng.below(60) as u64 }
+                        }
+                        1 => GossipMessage::Alive { node_id: xs[j].clone(), incarnation: next_inc[j].fetch_add(1, Ordering::SeqCst) + 1 },
+                        2 => GossipMessage::Sync { sender: format!("q{}", d), states: Vec::new(), sender_time: next_time.fetch_add(7, Ordering::SeqCst) + 7 },
+                        3 => {
+                            let inc = next_inc[j].fetch_add(1, Ordering::SeqCst) + 1;
+                            let ts = next_time.fetch_add(3, Ordering::SeqCst) + 3;
+                            GossipMessage::Sync {
+                                sender: format!("q{}", d),
+                                states: vec![GossipNodeState::with_wall_time(xs[j].clone(), NodeHealth::Healthy, ts, inc, 0)],
+                                sender_time: rng.below(60) as u64,
+                            }
+                        }
+                        4 => {
+                            let inc = mgr.node_state(&xs[j]).map_or(0, |s| s.incarnation);
+                            GossipMessage::Suspect { reporter: "obs".into(), suspect: xs[j].clone(), incarnation: inc }
+                        }
+                        _ => GossipMessage::PingAck { origin: "obs".into(), target: xs[j].clone(), sequence: step as u64, success: true },
+                    };
+                    if pacer {
+                        pacer_inside.store(true, Ordering::SeqCst);
+                    } else if pacer_inside.load(Ordering::SeqCst) {
+                        my_overlaps += 1;
+                    }
+                    mgr.handle_gossip(msg);
+                    if pacer {
+                        pacer_inside.store(false, Ordering::SeqCst);
+                    }
+                    my_calls += 1;
+                    let b = me.read(mgr, xs);
+                    if b.is_some() {
+                        report_bad(b);
+                        break;
+                    }
+                }
+                if pacer {
+                    pacer_done.store(true, Ordering::Release);
+                }
+                calls.fetch_add(my_calls, Ordering::Relaxed);
+                overlapping.fetch_add(my_overlaps, Ordering::Relaxed);
+                reads.fetch_add(me.reads, Ordering::Relaxed);
+            }));
+        }
+        // the pure observer
+        let (mgr, xs, pacer_done, stop, reads, observer_advances) = (&mgr, &xs, &pacer_done, &stop, &reads, &observer_advances);
+        let report_bad = &report_bad;
+        sc.spawn(move || {
+            let mut me = Reader::new("the observing thread".to_string(), xs.len());
+            loop {
+                let finished = pacer_done.load(Ordering::Acquire) || stop.load(Ordering::Relaxed);
+                let b = me.read(mgr, xs);
+                if b.is_some() {
+                    report_bad(b);
+                    break;
+                }
+                if finished {
+                    break;
+                }
+            }
+            reads.fetch_add(me.reads, Ordering::Relaxed);
+            observer_advances.fetch_add(me.advances, Ordering::Relaxed);
+        });
+    });
+    let overlaps = overlapping.load(Ordering::Relaxed);
+    r.count("concurrent_handler_calls", calls.load(Ordering::Relaxed));
+    r.count("concurrent_handler_calls_begun_while_another_thread_was_inside_a_handler", overlaps);
+    r.count("concurrent_reads_checked", reads.load(Ordering::Relaxed));
+    r.count("concurrent_clock_advances_seen_by_the_observing_thread", observer_advances.load(Ordering::Relaxed));
+    let found = bad.lock().unwrap_or_else(|e| e.into_inner()).take();
+    if let Some((sig, d)) = found {
+        r.violation(
+            sig,
+            format!(
+                "{} ({} threads delivering gossip to one manager, {} tracked members, Sync batches of up to {} states; {} handler calls so far, {} of them begun while another thread was inside a handler; the thread schedule is not reproducible, --replay repeats the workload)",
+                d, n_del, n_x, 16 + batch_max, calls.load(Ordering::Relaxed), overlaps
+            ),
+            json!({"part": "concurrent", "case_seed": case_seed, "steps": steps}),
+        );
+        return true;
+    }
+    r.eval(hash_combine(case_seed, 0xC0C0), overlaps > 0);
+    if r.want_sample() {
+        r.sample(json!({"part": "concurrent", "delivering_threads": n_del, "tracked_members": n_x, "handler_calls": calls.load(Ordering::Relaxed), "overlapping_calls": overlaps, "reads_checked": reads.load(Ordering::Relaxed), "final_lamport_time": mgr.lamport_time()}));
+    }
+    false
+}
+
 fn main() {
     let args = Args::parse();
     let started = Instant::now();
@@ -589,6 +846,15 @@ fn main() {
             "conv-random" => conv_random(rp["case_seed"].as_u64().unwrap(), &mut total),
             "monotone" => monotone(rp["case_seed"].as_u64().unwrap(), &mut total),
             "hlc" => hlc_case(rp["case_seed"].as_u64().unwrap(), &mut total),
+            "concurrent" => {
+                // the schedule is the machine's: repeat the workload a bounded number of times
+                let steps = rp["steps"].as_u64().unwrap_or(250) as usize;
+                for _ in 0..50 {
+                    if concurrent_case(rp["case_seed"].as_u64().unwrap(), &mut total, steps) {
+                        break;
+                    }
+                }
+            }
             _ => {
                 let ups: Vec<Upd> = rp["updates"]
                     .as_array()
@@ -659,17 +925,27 @@ fn main() {
         let rep = par_cases(args.threads, args.seed ^ 0xC7, n_hlc, args.budget(60, 600), |_i, s, r| hlc_case(s, r));
         total.count("hlc_programs", rep.evaluations);
         total.merge(rep);
+        // ---- concurrent delivery: few cases at a time, every case runs 3-4 threads of its own
+        let n_conc = args.by_tier(48u64, 1_500u64);
+        let conc_steps = args.by_tier(250usize, 400usize);
+        let rep = par_cases((args.threads / 4).max(1), args.seed ^ 0xD9, n_conc, args.budget(30, 300), move |_i, s, r| {
+            concurrent_case(s, r, conc_steps);
+        });
+        total.count("concurrent_cases", rep.evaluations);
+        total.merge(rep);
     }
 
     let meta = Meta {
         property: "C17",
-        rule: "conv-exhaustive: every multiset of <=N (quick 4, thorough 5) updates over 2 members x incarnation{0,1,2} x timestamp{1,2} x {Healthy,Degraded,Failed}, each delivered in every permutation x every batching (+ full re-delivery) to a fresh real LWWMembershipState and compared with the canonical delivery; conv-random: 3-10 updates over 2-4 members (incl. Unknown health), sampled permutations/batchings/duplications through merge and through GossipMembershipManager::handle_gossip(Sync); monotone: random programs of merges and local events (suspicions may name incarnations nobody announced; through the manager also add_peer of members already learned through gossip, and gossip rounds that expire pending suspicions - 1 ms suspicion timeout in half of those cases) with per-call checks; hlc: random programs of now / receive (wall before, equal to, after the clock's; arbitrary logical counters) / clock jumps on the real HybridLogicalClock, every issued timestamp compared with the previous one. A case is distinct by the hash of its update multiset / trace and non-trivial if at least two different updates concern the same member (so order can matter).",
+        rule: "conv-exhaustive: every multiset of <=N (quick 4, thorough 5) updates over 2 members x incarnation{0,1,2} x timestamp{1,2} x {Healthy,Degraded,Failed}, each delivered in every permutation x every batching (+ full re-delivery) to a fresh real LWWMembershipState and compared with the canonical delivery; conv-random: 3-10 updates over 2-4 members (incl. Unknown health), sampled permutations/batchings/duplications through merge and through GossipMembershipManager::handle_gossip(Sync); monotone: random programs of merges and local events (suspicions may name incarnations nobody announced; through the manager also add_peer of members already learned through gossip, and gossip rounds that expire pending suspicions - 1 ms suspicion timeout in half of those cases) with per-call checks; in half of the manager programs the receiving node is itself one of the observed members, so that updates about the node itself arrive too (its own earlier, higher incarnations gossiped back after a restart, suspicions of itself which it refutes with its own counter, Alive / ping acks / Syncs naming it) and its record of itself is monitored like any other member's; concurrent: one manager handles gossip on 2-3 threads (a pacing thread with mostly 16-480-state Sync batches, the others with Alive announcements of growing incarnations, Syncs with a growing sender clock, small Syncs, suspicions, ping acks) while every delivering thread after each call and a pure observer thread all the time read the Lamport time and the recorded incarnations of 1-3 tracked members - a value one thread reads is never below the value the same thread read before (nothing else is judged there; a concurrent case is non-trivial if at least one handler call began while another thread was inside a handler); hlc: random programs of now / receive (wall before, equal to, after the clock's; arbitrary logical counters) / clock jumps on the real HybridLogicalClock, every issued timestamp compared with the previous one. A case is distinct by the hash of its update multiset / trace and non-trivial if at least two different updates concern the same member (so order can matter).",
         assumptions: vec![
             "views are compared on (health, incarnation) per member, as the statement says; timestamps and wall-clock stamps are not compared".into(),
             "manager convergence uses a sender that is not an observed member, because handle_sync additionally marks the *sender* healthy with a local timestamp (a local event, not a membership update); the monotonicity programs do send half of their Syncs from observed members (often reporting on themselves), since nothing may move backwards across any call".into(),
             "update_local is only called for a member's own non-decreasing incarnation (how the manager uses it)".into(),
+            "a node that refutes a suspicion of itself announces an incarnation: the highest incarnation 'announced' by the receiving node is taken from the Alive messages it really hands to its transport".into(),
+            "the concurrent part goes beyond the quantifier's delivery histories (it adds thread schedules, which handle_gossip(&self) on a Sync manager permits); it therefore judges nothing but 'never decrease' on successive reads of one thread, each read being one accessor call under the manager's own lock, and involves no clock; its schedule is not reproducible (replay repeats the workload up to 50 times)".into(),
         ],
-        floors: if args.replay.is_some() { vec![] } else { vec![("exhaustive_multisets", 5_000), ("random_multisets", 500), ("monotone_programs", 500), ("deliveries", 100_000), ("hlc_timestamps_checked", 50_000), ("hlc_same_wall_steps", 5_000), ("monotone_syncs_sent_by_an_observed_member", 300), ("monotone_syncs_in_which_the_sender_reports_itself_unhealthy", 60)] },
+        floors: if args.replay.is_some() { vec![] } else { vec![("exhaustive_multisets", 5_000), ("random_multisets", 500), ("monotone_programs", 500), ("deliveries", 100_000), ("hlc_timestamps_checked", 50_000), ("hlc_same_wall_steps", 5_000), ("monotone_syncs_sent_by_an_observed_member", 300), ("monotone_syncs_in_which_the_sender_reports_itself_unhealthy", 60), ("monotone_suspicions_of_the_receiving_node", 100), ("monotone_suspicions_of_the_receiving_node_whose_view_of_itself_is_ahead_of_its_counter", 30), ("concurrent_cases", 8), ("concurrent_reads_checked", 20_000), ("concurrent_handler_calls_begun_while_another_thread_was_inside_a_handler", 500), ("concurrent_clock_advances_seen_by_the_observing_thread", 20)] },
         exhaustive: false,
     };
     write_result(&args, &meta, &total, started);
